@@ -9,9 +9,9 @@
 //! 100+op) that feeds the applicability monitor; operations on the freshly drawn table only
 //! execute (their result depends on simulated entropy, so it is not comparable across runs).
 use volute::sop::{Esop, Sop};
-use volute::{Lut, Lut3, Lut4, Lut5, Lut6};
+use volute::{Lut, Lut0, Lut1, Lut2, Lut3, Lut4, Lut5, Lut6, Lut7, Lut8};
 
-pub const NOPS: u64 = 28;
+pub const NOPS: u64 = 36;
 
 fn fnv(h: &mut u64, bytes: &[u8]) {
     for b in bytes {
@@ -192,6 +192,120 @@ pub fn run(sel: u64, n: usize, drawn: &[u64]) -> (u32, Option<u64>) {
             let mut own = rand::rngs::StdRng::from_rng(rand::thread_rng()).unwrap();
             let mut other = rand::rngs::SmallRng::from_entropy();
             let _ = (own.gen::<u64>(), other.gen::<u32>());
+            None
+        }
+        // 28..35: more of the API on the DRAWN table and on special shapes of its size (constants, projections)
+        28 => {
+            if well_formed {
+                use std::hash::{Hash, Hasher};
+                let l = Lut::from_blocks(n, drawn);
+                let c = l.clone();
+                let mut h = std::collections::hash_map::DefaultHasher::new();
+                l.hash(&mut h);
+                let _ = (h.finish(), l == c, l.cmp(&Lut::zero(n)), l.partial_cmp(&Lut::one(n)), l < c.not());
+            }
+            None
+        }
+        29 => {
+            if well_formed {
+                let l = Lut::from_blocks(n, drawn);
+                let mut keep: Vec<Lut> = (0..1 + arg % 8).map(|_| l.clone()).collect();
+                for (i, k) in keep.iter_mut().enumerate() {
+                    k.not_inplace();
+                    if n >= 2 {
+                        k.flip_inplace(i % n);
+                        k.swap_inplace(i % n, (i + 1) % n);
+                    }
+                    k.xor_inplace(&l);
+                    k.set_value(i % (1usize << n), i & 1 == 0);
+                }
+                drop(keep);
+            }
+            None
+        }
+        30 => {
+            if well_formed {
+                let l = Lut::from_blocks(n, drawn);
+                macro_rules! rt {
+                    ($t:ty) => {{
+                        if let Ok(s) = <$t>::try_from(l.clone()) {
+                            let d: Lut = s.into();
+                            let _ = d == l;
+                        }
+                    }};
+                }
+                match n {
+                    0 => rt!(Lut0),
+                    1 => rt!(Lut1),
+                    2 => rt!(Lut2),
+                    3 => rt!(Lut3),
+                    4 => rt!(Lut4),
+                    5 => rt!(Lut5),
+                    6 => rt!(Lut6),
+                    7 => rt!(Lut7),
+                    8 => rt!(Lut8),
+                    _ => {}
+                }
+                // a conversion that must fail: wrong size
+                let _ = Lut3::try_from(Lut::zero(4)).is_err();
+            }
+            None
+        }
+        31 => {
+            if well_formed && n <= 8 {
+                let l = Lut::from_blocks(n, drawn);
+                let _ = (dgs(&l.to_string()), dgs(&l.to_bin_string()), dgs(&format!("{:x} {:b}", l, l)));
+            }
+            None
+        }
+        32 => {
+            if well_formed && n >= 2 && n <= 5 {
+                let l = Lut::from_blocks(n, drawn);
+                let _ = l.p_canonization();
+                let _ = l.n_canonization();
+            }
+            None
+        }
+        33 => {
+            // special shapes of the drawn size: constants and projections through the variable transforms,
+            // decomposition and two-level forms
+            let m = n.clamp(2, 6);
+            let v = arg % m;
+            for l in [Lut::zero(m), Lut::one(m), Lut::nth_var(m, v), Lut::nth_var(m, v).not()] {
+                let _ = l.swap(v, (v + 1) % m).flip(v);
+                let (c0, c1) = l.cofactors(v);
+                let _ = Lut::from_cofactors(&c0, &c1, v) == l;
+                let _ = (l.top_decomposition(v), l.is_pos_unate(v), l.is_neg_unate(v));
+                if m <= 4 {
+                    let s: Sop = (&l).into();
+                    let e: Esop = (&l).into();
+                    let _ = (s.num_cubes(), e.num_cubes(), l.n_canonization());
+                }
+                let _ = Lut::from_hex_string(m, &l.to_hex_string());
+            }
+            None
+        }
+        34 => {
+            let mut h = 0u64;
+            for l in Lut::all_functions(3).take(40 + arg) {
+                h = h.wrapping_mul(31).wrapping_add(l.blocks()[0]);
+            }
+            for l in Lut2::all_functions() {
+                h = h.wrapping_mul(31).wrapping_add(l.blocks()[0]);
+            }
+            Some(h ^ (arg as u64) << 48)
+        }
+        35 => {
+            if well_formed && n <= 3 {
+                let l = Lut::from_blocks(n, drawn);
+                let a: Sop = (&l).into();
+                let b: Sop = (&Lut::nth_var(n.max(1), 0)).into();
+                if n >= 1 {
+                    let _ = (dgs(&(&a & &b).to_string()), dgs(&(&a | &b).to_string()), dgs(&(!&a).to_string()));
+                }
+                let e: Esop = (&l).into();
+                let _ = dgs(&e.to_string());
+            }
             None
         }
         _ => {
